@@ -28,7 +28,8 @@ DISTINCT = ('cells', 'schedules')
 REQUIRED = ('calls_judged', 'file_backed_values', 'reopen_events', 'pickle_events', 'fanout_indexes', 'django_indexes',
             'presence_schedules', 'presence_lookups', 'atomicity_schedules', 'free_runs', 'exceptions_matched',
             'lookups_overlapping_replacement', 'replacements_run_in_front_of_a_file_open',
-            'updates_from_failing_iterables')
+            'updates_from_failing_iterables', 'blocks_left_by_KeyboardInterrupt', 'blocks_left_by_GeneratorExit',
+            'blocks_left_by_commit')
 ASSUMPTIONS = ('bool and NaN keys are not generated (OrderedDict unifies True with 1, the cache by design does not)',)
 
 T = 64
@@ -100,9 +101,49 @@ def history(dc, sc, res, rng, label):
             op = gen.pick(rng, ['setitem', 'setitem', 'setitem', 'getitem', 'getitem', 'get', 'delitem', 'pop', 'pop_default',
                                 'popitem', 'popitem_first', 'setdefault', 'update_map', 'update_pairs', 'update_kw',
                                 'keys', 'values', 'items', 'eq', 'contains', 'len', 'clear', 'push', 'pull', 'EVENT',
-                                'peekitem'])
+                                'peekitem', 'block'])
             args = (k,)
-            if op == 'setitem':
+            if op == 'block':
+                # a transact() block with a few assignments / removals that completes, or is left by an exception - an
+                # ordinary one, KeyboardInterrupt, SystemExit, or GeneratorExit thrown into a generator suspended inside
+                # the block; a block that is left by an exception changes nothing
+                how = gen.pick(rng, ['commit', 'RuntimeError', 'KeyboardInterrupt', 'SystemExit', 'GeneratorExit'])
+                muts = [(gen.pick(rng, ['set', 'set', 'del']), gen.pick(rng, keys), val()) for _ in range(rng.randrange(1, 4))]
+                args = (how, muts)
+                saved = collections.OrderedDict(R)
+
+                def body(M):
+                    for what, kk, vv in muts:
+                        if what == 'set':
+                            M[kk] = vv
+                        elif kk in M:
+                            del M[kk]
+
+                def scan():
+                    with I.transact():
+                        body(I)
+                        yield 'suspended inside the block'
+                exc_types = {'RuntimeError': RuntimeError, 'KeyboardInterrupt': KeyboardInterrupt, 'SystemExit': SystemExit}
+                try:
+                    if how == 'GeneratorExit':
+                        g = scan()
+                        next(g)
+                        g.close()
+                    else:
+                        with I.transact():
+                            body(I)
+                            if how != 'commit':
+                                raise exc_types[how]()
+                except (RuntimeError, KeyboardInterrupt, SystemExit):
+                    pass
+                if how == 'commit':
+                    body(R)
+                else:
+                    R.clear()
+                    R.update(saved)
+                res.count('blocks_left_by_' + how)
+                got = exp = ('ok', None)
+            elif op == 'setitem':
                 v = val()
                 args = (k, v)
                 got, exp = outcome(lambda: I.__setitem__(k, v)), outcome(lambda: R.__setitem__(k, v))
